@@ -966,7 +966,9 @@ pub fn generate(rng: &mut Rng, prop: Prop, thorough: bool) -> (HistScenario, Str
                     let target = match rng.below(100) {
                         0..=59 => 8192usize,
                         60..=79 => 65536,
-                        80..=91 => 1 << 20,
+                        80..=87 => 1 << 20,
+                        88..=91 => 1_000_000,
+                        92..=93 => 10_000_000,
                         _ => 1 << 24,
                     };
                     let len = c.text().len();
